@@ -138,33 +138,40 @@ Definition hget (h : hdr) (k : bytes) : bytes :=
   end.
 
 (* ---------- what the getters of the parsed *Msg show ---------- *)
-Record pobs := mkp { p_ct : bytes; p_cs : bytes; p_enc : bytes }.
-Record fobs := mkf { fo_name : bytes; fo_cid : bytes }.     (* fo_cid = [] : no Content-ID option *)
+Record pobs := mkp { p_ct : bytes; p_cs : bytes; p_enc : bytes; p_content : bytes }.
+(* fo_cid = [] : no Content-ID option; fo_bytes: what File.Writer produces *)
+Record fobs := mkf { fo_name : bytes; fo_cid : bytes; fo_bytes : bytes }.
+(* address lists as the formatted strings GetFromString / GetToString … return *)
+Record addrs := mka { a_from : list bytes; a_to : list bytes; a_cc : list bytes; a_bcc : list bytes }.
 Record mstate := mkm {
   m_charset : bytes;
   m_enc : bytes;
   m_parts : list pobs;
   m_atts : list fobs;
   m_embs : list fobs;
-  m_gen : list (bytes * bytes)          (* generic headers set: key, raw value given to SetGenHeader *)
+  m_gen : list (bytes * bytes);         (* generic headers set: key, raw value given to SetGenHeader *)
+  m_addrs : addrs
 }.
 
-Definition st_init : mstate := mkm charset_utf8 enc_qp [] [] [] [].
+Definition no_addrs : addrs := mka [] [] [] [].
+Definition st_init : mstate := mkm charset_utf8 enc_qp [] [] [] [] no_addrs.
 Definition set_charset (st : mstate) (c : bytes) : mstate :=
-  mkm c (m_enc st) (m_parts st) (m_atts st) (m_embs st) (m_gen st).
+  mkm c (m_enc st) (m_parts st) (m_atts st) (m_embs st) (m_gen st) (m_addrs st).
 Definition set_enc (st : mstate) (e : bytes) : mstate :=
-  mkm (m_charset st) e (m_parts st) (m_atts st) (m_embs st) (m_gen st).
+  mkm (m_charset st) e (m_parts st) (m_atts st) (m_embs st) (m_gen st) (m_addrs st).
 Definition set_parts (st : mstate) (l : list pobs) : mstate :=
-  mkm (m_charset st) (m_enc st) l (m_atts st) (m_embs st) (m_gen st).
+  mkm (m_charset st) (m_enc st) l (m_atts st) (m_embs st) (m_gen st) (m_addrs st).
 Definition add_att (st : mstate) (f : fobs) : mstate :=
-  mkm (m_charset st) (m_enc st) (m_parts st) (m_atts st ++ [f]) (m_embs st) (m_gen st).
+  mkm (m_charset st) (m_enc st) (m_parts st) (m_atts st ++ [f]) (m_embs st) (m_gen st) (m_addrs st).
 Definition add_emb (st : mstate) (f : fobs) : mstate :=
-  mkm (m_charset st) (m_enc st) (m_parts st) (m_atts st) (m_embs st ++ [f]) (m_gen st).
+  mkm (m_charset st) (m_enc st) (m_parts st) (m_atts st) (m_embs st ++ [f]) (m_gen st) (m_addrs st).
 Definition set_gen (st : mstate) (k v : bytes) : mstate :=
-  mkm (m_charset st) (m_enc st) (m_parts st) (m_atts st) (m_embs st) (map_set (m_gen st) k v).
+  mkm (m_charset st) (m_enc st) (m_parts st) (m_atts st) (m_embs st) (map_set (m_gen st) k v) (m_addrs st).
+Definition set_addrs (st : mstate) (a : addrs) : mstate :=
+  mkm (m_charset st) (m_enc st) (m_parts st) (m_atts st) (m_embs st) (m_gen st) a.
 (* Msg.SetBodyString: replaces the part list by one part with the message's charset and encoding *)
-Definition set_body (st : mstate) (ct : bytes) : mstate :=
-  set_parts st [mkp ct (m_charset st) (m_enc st)].
+Definition set_body (st : mstate) (ct content : bytes) : mstate :=
+  set_parts st [mkp ct (m_charset st) (m_enc st) content].
 
 (* ---------- oracles: results of the stdlib on this input ---------- *)
 Inductive mtres :=
@@ -173,11 +180,23 @@ Inductive mtres :=
 | MTOk (mt : bytes) (charset : option bytes) (has_boundary : bool).
 
 Record bits := mkbits {
-  read_ok : bool;      (* reading the body of this entity to its end succeeds *)
-  qp_ok : bool;        (* quotedprintable.NewReader over the body reads without error *)
-  b64s_ok : bool;      (* base64.NewDecoder over the body reads without error *)
-  b64d_ok : bool       (* base64.StdEncoding.DecodeString(body) succeeds *)
+  read_ok : bool;              (* reading the body of this entity to its end succeeds *)
+  raw : bytes;                 (* the body as the reader delivers it (a multipart.Part has already decoded
+                                  quoted-printable and dropped that Content-Transfer-Encoding header) *)
+  qp_dec : option bytes;       (* quotedprintable.NewReader over the body: the text, None = error *)
+  b64s_dec : option bytes;     (* base64.NewDecoder(StdEncoding) over the body *)
+  b64d_dec : option bytes      (* base64.StdEncoding.DecodeString(body) *)
 }.
+Definition is_some {A : Type} (o : option A) : bool := match o with Some _ => true | None => false end.
+Definition odflt (o : option bytes) : bytes := match o with Some x => x | None => [] end.
+Definition qp_ok (b : bits) : bool := is_some (qp_dec b).
+Definition b64s_ok (b : bits) : bool := is_some (b64s_dec b).
+Definition b64d_ok (b : bits) : bool := is_some (b64d_dec b).
+
+(* net/mail on an address field: absent or empty / error / the parsed addresses, each as String() *)
+Inductive ares := ANone | AErr | AOk (l : list bytes).
+(* Header.Date(): absent / error / the time, formatted RFC1123Z as SetDateWithValue stores it *)
+Inductive dres := DNone | DErr | DOk (formatted : bytes).
 
 (* an entity = header + body; [parts]/[end_ok]: what multipart.Reader yields on the body with the
    boundary of the entity's Content-Type: the finite list of parts, then io.EOF (true) or an error *)
@@ -258,22 +277,23 @@ Definition attachment_embed (cd : list bytes) (h : hdr) (b : bits) (drained : bo
   let isb64 := eqfold (fst pe) enc_b64 in
   (* AttachReader / EmbedReader read the (possibly base64-decoded) part to its end *)
   let data_ok := drained || (read_ok b && (if isb64 then b64s_ok b else true)) in
+  let data := if drained then [] else if isb64 then odflt (b64s_dec b) else raw b in
   if lower_is cdType lit_attachment then
-    if data_ok then Ok (add_att st (mkf filename [])) else Err
+    if data_ok then Ok (add_att st (mkf filename [] data)) else Err
   else if lower_is cdType lit_inline then
     pc <- parse_multipart_header (hget h hdr_content_id) ;;
-    if data_ok then Ok (add_emb st (mkf filename (fst pc))) else Err
+    if data_ok then Ok (add_emb st (mkf filename (fst pc) data)) else Err
   else Err.
 
 (* ---------- parseEMLBodyPlain (eml.go:306) ---------- *)
 Definition parse_body_plain (mediatype : bytes) (h : hdr) (b : bits) (st : mstate) : outcome mstate :=
   let cte := hget h hdr_content_transfer_enc in
-  if is_empty cte || eqfold cte enc_7bit then Ok (set_body (set_enc st enc_7bit) mediatype)
-  else if eqfold cte enc_none then Ok (set_body (set_enc st enc_none) mediatype)
+  if is_empty cte || eqfold cte enc_7bit then Ok (set_body (set_enc st enc_7bit) mediatype (raw b))
+  else if eqfold cte enc_none then Ok (set_body (set_enc st enc_none) mediatype (raw b))
   else if eqfold cte enc_qp then
-    if qp_ok b then Ok (set_body (set_enc st enc_qp) mediatype) else Err
+    if qp_ok b then Ok (set_body (set_enc st enc_qp) mediatype (odflt (qp_dec b))) else Err
   else if eqfold cte enc_b64 then
-    if b64s_ok b then Ok (set_body (set_enc st enc_b64) mediatype) else Err
+    if b64s_ok b then Ok (set_body (set_enc st enc_b64) mediatype (odflt (b64s_dec b))) else Err
   else Err.
 
 (* ---------- one iteration of the part loop of parseEMLMultipart (eml.go:373-448) ---------- *)
@@ -348,7 +368,12 @@ Definition body_phase (p : entity) (drained : bool) (st1 : mstate) : outcome mst
               | Some enc =>
                   (* base64: handleEMLMultiPartBase64Encoding may fail *)
                   if bytes_eqb enc enc_b64 && negb (drained || b64d_ok b) then Err
-                  else Ok (set_parts st1 (m_parts st1 ++ [mkp contentType cs enc]))
+                  else
+                    (* io.ReadAll(multiPart): empty when the nested branch has consumed the part *)
+                    let data := if drained then [] else raw b in
+                    let content := if bytes_eqb enc enc_b64
+                                   then (if drained then [] else odflt (b64d_dec b)) else data in
+                    Ok (set_parts st1 (m_parts st1 ++ [mkp contentType cs enc content]))
               end
         end
   end.
@@ -421,27 +446,35 @@ Fixpoint copy_common (keys : list bytes) (h : hdr) (st : mstate) : mstate :=
 Definition common_headers : list bytes :=
   if legacy then hdr_content_type :: eml_common_headers else eml_common_headers.
 
-(* [addr_ok]: From parses as one address and To/Cc/Bcc as address lists (each only if present);
-   [date_ok]: the Date field is absent or parses *)
-Definition parse_headers (h : hdr) (addr_ok date_ok : bool) (st : mstate) : outcome mstate :=
+(* the address fields: From through msg.From (one address: SetAddrHeader keeps the first), To/Cc/Bcc
+   through ParseAddressList + msg.To/Cc/Bcc of the String() forms; the Date field; then commonHeaders.
+   A Date that is absent is replaced by the current time (value not modelled: []). *)
+Definition alist (a : ares) : list bytes := match a with AOk l => l | _ => [] end.
+Definition aerr (a : ares) : bool := match a with AErr => true | _ => false end.
+Definition parse_headers (h : hdr) (from to cc bcc : ares) (date : dres) (st : mstate) : outcome mstate :=
   let st1 := parse_encoding h st in
   st2 <- parse_ct_charset h st1 ;;
-  if negb addr_ok then Err
-  else if negb date_ok then Err
-  else Ok (copy_common common_headers h (set_gen st2 hdr_date [])).
+  if aerr from || aerr to || aerr cc || aerr bcc then Err
+  else
+    let st3 := set_addrs st2 (mka (firstn 1 (alist from)) (alist to) (alist cc) (alist bcc)) in
+    match date with
+    | DErr => Err
+    | DNone => Ok (copy_common common_headers h (set_gen st3 hdr_date []))
+    | DOk f => Ok (copy_common common_headers h (set_gen st3 hdr_date f))
+    end.
 
 (* ---------- EMLToMsgFromReader / EMLToMsgFromString (eml.go:33, 50) ---------- *)
 Record top := mktop {
   t_msg_ok : bool;       (* net/mail.ReadMessage and reading the whole body succeed *)
-  t_addr_ok : bool;
-  t_date_ok : bool;
+  t_from : ares; t_to : ares; t_cc : ares; t_bcc : ares;
+  t_date : dres;
   t_ent : entity
 }.
 
 Definition parse_eml (t : top) : outcome mstate :=
   if negb (t_msg_ok t) then Err
   else
-    st <- parse_headers (e_hdr (t_ent t)) (t_addr_ok t) (t_date_ok t) st_init ;;
+    st <- parse_headers (e_hdr (t_ent t)) (t_from t) (t_to t) (t_cc t) (t_bcc t) (t_date t) st_init ;;
     parse_body_parts (t_ent t) st.
 
 End Parser.
